@@ -130,11 +130,30 @@ Theorem C11_isolation_prefix : forall mv progs s i p t,
 Proof. exact isolation_prefix. Qed.
 Print Assumptions C11_isolation_prefix.
 
-(* ... and that is what the same program gives when it really runs alone in a process somebody
-   initialised (ready_cfg), under any schedule that lets it finish.
-   _partial: that the alone run does finish without being refused (true for programs without
-   ovni_proc_init/fini, because st stays READY) is not proved in general; Example C11_ex_alone
-   shows an instance. *)
+(* ... and that is what the same program gives when it really runs alone, after a successful
+   ovni_proc_init by somebody (ready_cfg), for as many steps as it has actions.  For thread programs
+   that trace (no ovni_proc_init/fini of their own): *)
+Theorem C11_isolation_alone : forall mv progs s i p t w,
+  tids_disjoint progs ->
+  let c := run mv (init progs) s in
+  nth_error progs i = Some p -> nth_error (c_thr c) i = Some t -> thr_done t = true ->
+  forallb (fun c => negb (is_proc_call c)) p = true ->
+  let c1 := run mv (ready_cfg w [p]) (repeat 0%nat (nactions mv p)) in
+  exists t1, c_thr c1 = [t1] /\ (t, fs_get (t_tid t) (c_fs c)) = (t1, fs_get (t_tid t1) (c_fs c1)).
+Proof. exact isolation_alone_full. Qed.
+Print Assumptions C11_isolation_alone.
+
+(* the alone run is exactly the sequential reference, refusals included *)
+Theorem C11_alone_is_seq : forall mv w p,
+  forallb (fun c => negb (is_proc_call c)) p = true ->
+  let c1 := run mv (ready_cfg w [p]) (repeat 0%nat (nactions mv p)) in
+  exists t1, c_thr c1 = [t1] /\ (t1, fs_get (t_tid t1) (c_fs c1)) = seq_result mv p.
+Proof. exact alone_is_seq. Qed.
+Print Assumptions C11_alone_is_seq.
+
+(* for programs that also call ovni_proc_init/fini themselves the comparison with an alone run is
+   only conditional (_partial: that the alone run finishes unrefused is a hypothesis; such a
+   program alone in an already initialised process is refused at its own ovni_proc_init) *)
 Theorem C11_isolation_alone_partial : forall mv progs s i p t w s1 t1,
   tids_disjoint progs ->
   let c := run mv (init progs) s in
